@@ -4,7 +4,7 @@ Import ListNotations.
 From GU Require Import C04.Facts C04.Gen C04.Model.
 
 (* the facts of the repaired code, as a literal so that [simpl] sees through the projections *)
-Notation good := (mkRm true true TTested true true true true true TTested true true true NName true).
+Notation good := (mkRm true true TTested true true true true true TTested true true true NName true true).
 Notation goodg := (mkGc true true).
 
 (* ---------- equality tests ---------- *)
@@ -1002,10 +1002,10 @@ Qed.
 
 (* ---------- statements used by Props.v ---------- *)
 
-Lemma remove_confined_l : forall en ep c fuel s p, dirs_above s p ->
-  forall q, ~ under p q -> lookup (fst (remove_top en ep good c fuel s p)) q = lookup s q.
+Lemma remove_confined_l : forall tr en ep c fuel s p, dirs_above s p ->
+  forall q, ~ under p q -> lookup (fst (remove_top en ep good c tr fuel s p)) q = lookup s q.
 Proof.
-  intros en ep c fuel s p Hd q Hq. apply (remove_changes_only en ep c fuel s p p Hd). intros Ht. apply Hq. eapply touchable_under; eauto.
+  intros tr en ep c fuel s p Hd q Hq. apply (remove_changes_only en ep c fuel s p p Hd). intros Ht. apply Hq. eapply touchable_under; eauto.
 Qed.
 
 Lemma clean_dir_confined_l : forall en ep c fuel s p, dirs_above s p -> not_link (lookup s p) ->
@@ -1053,10 +1053,10 @@ Proof.
   split; [exact E|]. intros a b -> Hb. apply (wf_prefix_dir s' Hwf b a Hb). congruence.
 Qed.
 
-Lemma remove_keeps_excluded_l : forall en ep c fuel s p, wf s -> dirs_above s p ->
-  forall q, protected en ep p q -> lookup s q <> None -> survives_with_ancestors s (fst (remove_top en ep good c fuel s p)) q.
+Lemma remove_keeps_excluded_l : forall tr en ep c fuel s p, wf s -> dirs_above s p ->
+  forall q, protected en ep p q -> lookup s q <> None -> survives_with_ancestors s (fst (remove_top en ep good c tr fuel s p)) q.
 Proof.
-  intros en ep c fuel s p Hwf Hd q Hp Hex. eapply keeps_gen; eauto.
+  intros tr en ep c fuel s p Hwf Hd q Hp Hex. eapply keeps_gen; eauto.
   - exact (remove_wf en ep c fuel s p p Hwf Hd).
   - exact (remove_changes_only en ep c fuel s p p Hd).
   - now apply protected_not_touchable.
@@ -1098,9 +1098,9 @@ Proof.
   apply is_prefix_spec. apply is_prefix_spec in H. eapply under_app; eauto.
 Qed.
 
-Lemma remove_terminates_l : forall en ep c fuel s p, dirs_above s p -> size_below s p < fuel ->
-  snd (remove_top en ep good c fuel s p) <> Err EFuel.
-Proof. intros en ep c fuel s p Hd Hsz. unfold remove_top. now apply remove_nofuel. Qed.
+Lemma remove_terminates_l : forall tr en ep c fuel s p, dirs_above s p -> size_below s p < fuel ->
+  snd (remove_top en ep good c tr fuel s p) <> Err EFuel.
+Proof. intros tr en ep c fuel s p Hd Hsz. change (snd (remove en ep good c fuel s p p) <> Err EFuel). now apply remove_nofuel. Qed.
 
 Lemma clean_dir_terminates_l : forall en ep c fuel s p, dirs_above s p -> not_link (lookup s p) -> size_below s p < fuel ->
   snd (clean_dir en ep good c fuel s p) <> Err EFuel.
@@ -1116,11 +1116,11 @@ Lemma gc_terminates_l : forall c old ord fuel s root, dirs_above s root -> not_l
   size_below s root + 1 < fuel -> snd (garbage_collect good goodg c old ord fuel s root) <> Err EFuel.
 Proof. intros c old ord fuel s root Hd Hn Hsz. unfold garbage_collect. now apply gc_nofuel. Qed.
 
-Lemma remove_succeeds_l : forall en ep fuel s p,
+Lemma remove_succeeds_l : forall tr en ep fuel s p,
   (forall n, en n = false) -> (forall q, ep q = false) -> wf s -> dirs_above s p -> size_below s p < fuel ->
-  snd (remove_top en ep good false fuel s p) = Ok /\ forall q, under p q -> lookup (fst (remove_top en ep good false fuel s p)) q = None.
+  snd (remove_top en ep good false tr fuel s p) = Ok /\ forall q, under p q -> lookup (fst (remove_top en ep good false tr fuel s p)) q = None.
 Proof.
-  intros en ep fuel s p Hen Hep Hwf Hd Hsz. unfold remove_top.
+  intros tr en ep fuel s p Hen Hep Hwf Hd Hsz. change (remove_top en ep good false tr fuel s p) with (remove en ep good false fuel s p p).
   pose proof (remove_ok en ep Hen Hep fuel s p p Hwf Hd Hsz) as Hok.
   split; [exact Hok|]. exact (remove_complete_l en ep Hen Hep false fuel s p p Hwf Hd Hok).
 Qed.
@@ -1150,7 +1150,9 @@ Definition witness : fsys :=
 Definition noex_n : name -> bool := fun _ => false.
 Definition noex_p : path -> bool := fun _ => false.
 (* the facts of the code before the D10 fix: no Lstat test, everything else as now *)
-Definition before_fix_rm : rm_facts := mkRm false true TTested true true true true true TTested true true true NName true.
+Definition before_fix_rm : rm_facts := mkRm false true TTested true true true true true TTested true true true NName true true.
+(* the facts of the code that does not clean the path first (before the trailing-separator fix) *)
+Definition uncleaned_rm : rm_facts := mkRm true true TTested true true true true true TTested true true true NName true false.
 Definition before_fix_gc : gc_facts := mkGc false true.
 
 Lemma witness_dirs_above : dirs_above witness [nm 3].
@@ -1160,10 +1162,10 @@ Proof.
 Qed.
 
 Lemma without_lstat_outside_deleted :
-  snd (remove_top noex_n noex_p before_fix_rm false 10 witness [nm 3]) = Ok /\
-  lookup (fst (remove_top noex_n noex_p before_fix_rm false 10 witness [nm 3])) [nm 1; nm 2] = None /\
+  snd (remove_top noex_n noex_p before_fix_rm false false 10 witness [nm 3]) = Ok /\
+  lookup (fst (remove_top noex_n noex_p before_fix_rm false false 10 witness [nm 3])) [nm 1; nm 2] = None /\
   lookup witness [nm 1; nm 2] = Some (EFile 7) /\
-  lookup (fst (remove_top noex_n noex_p before_fix_rm false 10 witness [nm 3])) [nm 3] = Some EDir.
+  lookup (fst (remove_top noex_n noex_p before_fix_rm false false 10 witness [nm 3])) [nm 3] = Some EDir.
 Proof. vm_compute. repeat split; reflexivity. Qed.
 
 Lemma witness_not_under : ~ under [nm 3] [nm 1; nm 2].
@@ -1182,9 +1184,9 @@ Qed.
 
 Lemma loop_witness_facts :
   size_below loop_witness [nm 3] = 3%nat /\
-  snd (remove_top noex_n noex_p expected_rm false 4 loop_witness [nm 3]) = Ok /\
-  snd (remove_top noex_n noex_p before_fix_rm false 4 loop_witness [nm 3]) = Err EFuel /\
-  snd (remove_top noex_n noex_p before_fix_rm false 30 loop_witness [nm 3]) = Err EFuel.
+  snd (remove_top noex_n noex_p expected_rm false false 4 loop_witness [nm 3]) = Ok /\
+  snd (remove_top noex_n noex_p before_fix_rm false false 4 loop_witness [nm 3]) = Err EFuel /\
+  snd (remove_top noex_n noex_p before_fix_rm false false 30 loop_witness [nm 3]) = Err EFuel.
 Proof. vm_compute. repeat split; reflexivity. Qed.
 
 (* ---------- RemoveWithPrivileges: the escalation path, ownership included ---------- *)
@@ -1291,3 +1293,21 @@ Proof.
   intros pk. unfold library_force. destruct (pv_force_passes_path pk); [exact force_remove_pass_confined|].
   intros s p _. apply changes_only_refl.
 Qed.
+
+(* a link to an outside directory named with a trailing separator, by code that does not clean the path first *)
+Definition trailing_witness : fsys := [ ([], EDir); ([nm 1], EDir); ([nm 1; nm 2], EFile 7); ([nm 3], EDir); ([nm 3; nm 5], ELink [nm 1]) ].
+
+Lemma trailing_witness_dirs_above : dirs_above trailing_witness [nm 3; nm 5].
+Proof.
+  intros a b H Hb. destruct a as [|x [|y a']]; [reflexivity | |].
+  - simpl in H. inversion H; subst. reflexivity.
+  - exfalso. destruct a'; destruct b; simpl in H; try discriminate; congruence.
+Qed.
+
+Lemma trailing_witness_facts :
+  lookup (fst (remove_top noex_n noex_p uncleaned_rm false true 10 trailing_witness [nm 3; nm 5])) [nm 1; nm 2] = None /\
+  snd (remove_top noex_n noex_p uncleaned_rm false true 10 trailing_witness [nm 3; nm 5]) = Err EInvalid /\
+  lookup (fst (remove_top noex_n noex_p uncleaned_rm false true 10 trailing_witness [nm 3; nm 5])) [nm 3; nm 5] = Some (ELink [nm 1]) /\
+  lookup (fst (remove_top noex_n noex_p expected_rm false true 10 trailing_witness [nm 3; nm 5])) [nm 1; nm 2] = Some (EFile 7) /\
+  lookup (fst (remove_top noex_n noex_p expected_rm false true 10 trailing_witness [nm 3; nm 5])) [nm 3; nm 5] = None.
+Proof. vm_compute. repeat split; reflexivity. Qed.
